@@ -222,6 +222,8 @@ class CoAPPairing(ZeroconfPairing):
         return await self.connection.subscribe_to(list(new_subs))
 
     async def unsubscribe(self, characteristics):
+        # characteristics may be a single-pass iterable so only go over it once
+        characteristics = list(characteristics)
         await self._ensure_connected()
         await super().unsubscribe(set(characteristics))
         return await self.connection.unsubscribe_from(characteristics)
